@@ -117,12 +117,58 @@ def stamp_level(ctx, rng, viol):
     return stats
 
 
+def special_files_scenario(viol):
+    """Files that exist, were not produced by redo and are not regular files — a named pipe, a unix socket — at names
+    that a rule matches: no redo command replaces or removes them (one rule writes $3, the other produces nothing),
+    whether they are requested directly or as a dependency."""
+    import socket, stat as S
+    from proj import Project
+    pr = Project()
+    try:
+        os.mkfifo(pr.path("live.log"))
+        sk = socket.socket(socket.AF_UNIX)
+        sk.bind(pr.path("daemon.ctl"))
+        pr.write("default.log.do", 'echo "made by the rule" >"$3"\n')
+        pr.write("default.ctl.do", ":\n")
+        pr.write("user.do", 'redo-ifchange live.log daemon.ctl\necho user >"$3"\n')
+        before = {n: (os.lstat(pr.path(n)).st_ino, S.S_IFMT(os.lstat(pr.path(n)).st_mode)) for n in ("live.log", "daemon.ctl")}
+        outs = []
+        for argv in (["redo-ifchange", "live.log"], ["redo", "live.log"], ["redo", "daemon.ctl"], ["redo-ifchange", "user"], ["redo", "user"]):
+            rc, o, e = pr.run(argv, timeout=30)
+            outs.append((argv, rc, e[-300:]))
+        problems = []
+        for n in ("live.log", "daemon.ctl"):
+            try:
+                st = os.lstat(pr.path(n))
+                now = (st.st_ino, S.S_IFMT(st.st_mode))
+            except FileNotFoundError:
+                now = None
+            if now != before[n]:
+                problems.append("%s (a %s made by the user) %s" % (n, "named pipe" if n == "live.log" else "unix socket", "was removed" if now is None else "was replaced (inode/type %r -> %r)" % (before[n], now)))
+        sk.close()
+        if problems:
+            p = write_replay("C11", "special-files", dict(kind="impl-monitor", problems=problems, commands=outs,
+                                                          scenario="mkfifo live.log; unix socket daemon.ctl; default.log.do writes $3; default.ctl.do produces nothing; user.do: redo-ifchange live.log daemon.ctl"))
+            viol.append(Violation("C11", p, "a file that exists and was not generated by redo was touched: " + "; ".join(problems)))
+    finally:
+        pr.destroy()
+
+
 def run(ctx):
     viol = ctx.setdefault("violations", [])
     st = stamp_level(ctx, random.Random(ctx["seed"] * 41 + 11), viol)
     if viol:
         return dict(evaluations=st["pairs"], distinct_nontrivial=st["override_true"], rule="stamp strings", samples=[], distribution=dict(stamps=st))
-    cov = deps_check.run_property(ctx, "C11", FEATURES["C11"], NCASES["C11"], WANT["C11"], known_matcher=KNOWN.get("C11"))
+    # builds killed part-way leave half-recorded rows behind; a file the user creates afterwards at such a target's path
+    # is still the user's
+    import c10, depsgen
+    rngk = random.Random(ctx["seed"] * 59 + 11)
+    killed = [c10.with_crashes(rngk, depsgen.gen_case(rngk, features=FEATURES["C11"])) for _ in range(120 if ctx["tier"] == "thorough" else 12)]
+    cov = deps_check.run_property(ctx, "C11", FEATURES["C11"], NCASES["C11"], WANT["C11"], known_matcher=KNOWN.get("C11"), extra_cases=killed)
+    cov["histories_with_killed_builds"] = len(killed)
+    if not viol and not ctx.get("replay"):
+        special_files_scenario(viol)
+        cov["directed_scenarios"] = 1
     cov.setdefault("distribution", {})["stamps"] = st
     cov["rule"] = "stamp strings: pairs of rendered/constant/link/malformed stamps through Stamp::detect_override and StampStr.detectOverride, and the stamps a real build records for regular files, symlinks (to a file, a directory, nothing), directories against StampStr.render of lstat/stat; " + cov.get("rule", "")
     return cov
